@@ -808,7 +808,7 @@ impl Typer {
         let (params, ret) = match signature(&f.name) {
             Some(s) => s,
             None => {
-                self.not_judged.push(format!("function `{}` is not defined by RFC 9535", f.name));
+                self.not_judged.push("a function name RFC 9535 does not define (extension hook)".to_string());
                 // still descend: nested RFC functions must be well-typed on their own
                 for a in &f.args {
                     match a {
